@@ -287,7 +287,9 @@ Spec == Init /\ [][Next]_vars
 
 \* ---- properties of every table (design level)
 Sorted == \A k \in 1..(Len(tab.rows) - 1) : Lt(tab.rows[k].start, tab.rows[k + 1].start)
-Covered == tab.filled /\ y >= Y0 => (tab.rows # <<>> /\ Le(tab.rows[1].start, <<Days(y, 1, 1), 0>>))
+\* every year the processor accepts (startYear - 1 .. untilYear) has a transition in force from its first instant on: the
+\* compiler's anchor rules exist for exactly this
+Covered == tab.filled => (tab.rows # <<>> /\ Le(tab.rows[1].start, <<Days(y, 1, 1), 0>>))
 NoOverflow == ~tab.over /\ tab.hw < Capacity
 WithinRecordedSize == tab.hw < Z.bufSize
 NoStaleFlag == ~tab.stale
